@@ -1498,6 +1498,225 @@ ARG_HINTS = {
 }
 
 
+# --------------------------------------------------------------------------
+# argument classes of the signature sweep: (type, class, XPath expression), written from the XSD value spaces
+# --------------------------------------------------------------------------
+_INT_BOUNDS = {   # XSD Part 2 §3.4: (min, max) of the bounded integer types
+    'xs:long': (-2 ** 63, 2 ** 63 - 1), 'xs:int': (-2 ** 31, 2 ** 31 - 1), 'xs:short': (-2 ** 15, 2 ** 15 - 1),
+    'xs:byte': (-128, 127), 'xs:unsignedLong': (0, 2 ** 64 - 1), 'xs:unsignedInt': (0, 2 ** 32 - 1),
+    'xs:unsignedShort': (0, 65535), 'xs:unsignedByte': (0, 255),
+}
+
+
+def _build_sig_values():
+    out = []
+
+    def add(t, cls, lex, expr=None):
+        out.append((t, cls, expr if expr is not None else "%s('%s')" % (t, lex)))
+    # durations: every non-empty combination of components, both signs, plus the zero spellings
+    comps = [('1Y', 'Y'), ('2M', 'Y'), ('3D', 'D'), ('4H', 'T'), ('5M', 'T'), ('6.5S', 'T')]
+
+    def dur(sel):
+        date = ''.join(c for c, k in sel if k in 'YD')
+        time_ = ''.join(c for c, k in sel if k == 'T')
+        return 'P' + date + ('T' + time_ if time_ else '')
+    import itertools
+    for typ, pool in (('xs:duration', comps), ('xs:dayTimeDuration', comps[2:]), ('xs:yearMonthDuration', comps[:2])):
+        for r in range(1, len(pool) + 1):
+            for sel in itertools.combinations(pool, r):
+                add(typ, 'duration:pos', dur(sel))
+                add(typ, 'duration:neg', '-' + dur(sel))
+    for lex in ('PT0S', 'P0D', '-PT0S'):
+        add('xs:duration', 'duration:zero', lex)
+        add('xs:dayTimeDuration', 'duration:zero', lex)
+    for lex in ('P0M', 'P0Y', '-P0M'):
+        add('xs:duration', 'duration:zero', lex)
+        add('xs:yearMonthDuration', 'duration:zero', lex)
+    # negative durations whose single components are zero or carry over (-PT30M: hours 0; -PT36H: days -1)
+    for lex in ('-PT30M', '-PT36H', '-PT90S', '-P400D', '-PT0.5S', '-PT86400S', 'PT36H', 'PT86400S', 'P400D'):
+        cls = 'duration:neg' if lex[0] == '-' else 'duration:pos'
+        add('xs:duration', cls, lex)
+        add('xs:dayTimeDuration', cls, lex)
+    for lex in ('-P13M', 'P13M', '-P11M', 'P100Y'):
+        cls = 'duration:neg' if lex[0] == '-' else 'duration:pos'
+        add('xs:duration', cls, lex)
+        add('xs:yearMonthDuration', cls, lex)
+    # integers
+    for lex, cls in (('0', 'numeric:zero'), ('-7', 'numeric:neg'), ('7', 'numeric:pos'), ('-1', 'numeric:neg'),
+                     ('1' + '0' * 30, 'numeric:huge'), ('-1' + '0' * 30, 'numeric:huge')):
+        add('xs:integer', cls, lex)
+    out.append(('xs:integer', 'numeric:pos', '7'))
+    out.append(('xs:integer', 'numeric:zero', '0'))
+    for t, (lo, hi) in _INT_BOUNDS.items():
+        add(t, 'numeric:boundary', str(lo))
+        add(t, 'numeric:boundary', str(hi))
+        add(t, 'numeric:zero', '0')
+        add(t, 'numeric:pos', '5')
+        if lo < 0:
+            add(t, 'numeric:neg', '-5')
+    for t, vals in (('xs:nonPositiveInteger', ['0', '-5', '-1' + '0' * 30]), ('xs:negativeInteger', ['-1', '-5', '-1' + '0' * 30]),
+                    ('xs:nonNegativeInteger', ['0', '5', '1' + '0' * 30]), ('xs:positiveInteger', ['1', '5', '1' + '0' * 30])):
+        for v in vals:
+            add(t, 'numeric:huge' if len(v) > 20 else 'numeric:zero' if v == '0' else 'numeric:neg' if v[0] == '-' else 'numeric:pos', v)
+    for lex, cls in (('0', 'numeric:zero'), ('-0.0', 'numeric:zero'), ('-1.5', 'numeric:neg'), ('1.5', 'numeric:pos'), ('2.5', 'numeric:pos'),
+                     ('-2.5', 'numeric:neg'), ('0.000000000000000001', 'numeric:boundary'),
+                     ('123456789012345678901234567890.5', 'numeric:huge'), ('-123456789012345678901234567890.5', 'numeric:huge')):
+        add('xs:decimal', cls, lex)
+    out.append(('xs:decimal', 'numeric:pos', '1.5'))
+    for t, big, tiny in (('xs:double', '1.7976931348623157E308', '4.9E-324'), ('xs:float', '3.4028235E38', '1.4E-45')):
+        for lex, cls in (('0', 'numeric:zero'), ('-0', 'numeric:zero'), ('-1.5', 'numeric:neg'), ('1.5', 'numeric:pos'), ('2.5', 'numeric:pos'),
+                         (big, 'numeric:huge'), ('-' + big, 'numeric:huge'), (tiny, 'numeric:boundary'), ('1E21', 'numeric:huge'),
+                         ('1E-7', 'numeric:boundary'), ('INF', 'numeric:special'), ('-INF', 'numeric:special'), ('NaN', 'numeric:special')):
+            add(t, cls, lex)
+    out.append(('xs:double', 'numeric:pos', '1e0'))
+    # date/time family: BCE, year > 9999, with/without timezone, extreme timezones, 24:00:00, leap day, fractions
+    for lex, cls in (('2000-01-01T12:00:00', 'datetime:no-tz'), ('2000-01-01T12:00:00Z', 'datetime:tz'),
+                     ('2000-02-29T23:59:59.999+14:00', 'datetime:tz'), ('2000-01-01T00:00:00-14:00', 'datetime:tz'),
+                     ('-0044-03-15T12:00:00', 'datetime:bce'), ('-0044-03-15T12:00:00Z', 'datetime:bce'),
+                     ('12000-01-01T00:00:00Z', 'datetime:year>9999'), ('12000-12-31T23:59:59', 'datetime:year>9999'),
+                     ('2000-12-31T24:00:00', 'datetime:24h'), ('1999-12-31T24:00:00Z', 'datetime:24h'), ('0001-01-01T00:00:00', 'datetime:no-tz')):
+        add('xs:dateTime', cls, lex)
+    for lex, cls in (('2000-02-29', 'datetime:no-tz'), ('2001-01-01Z', 'datetime:tz'), ('2000-01-01+14:00', 'datetime:tz'),
+                     ('2000-01-01-14:00', 'datetime:tz'), ('-0044-03-15', 'datetime:bce'), ('-0044-03-15Z', 'datetime:bce'),
+                     ('12000-01-01', 'datetime:year>9999'), ('12000-12-31Z', 'datetime:year>9999'), ('0001-01-01', 'datetime:no-tz')):
+        add('xs:date', cls, lex)
+    for lex, cls in (('12:00:00', 'datetime:no-tz'), ('00:00:00', 'datetime:no-tz'), ('23:59:59.999', 'datetime:no-tz'),
+                     ('12:00:00Z', 'datetime:tz'), ('12:00:00+14:00', 'datetime:tz'), ('12:00:00-14:00', 'datetime:tz'),
+                     ('24:00:00', 'datetime:24h'), ('24:00:00Z', 'datetime:24h')):
+        add('xs:time', cls, lex)
+    for t, vals in (('xs:gYear', ['2000', '-0044', '12000', '2000Z']), ('xs:gYearMonth', ['2000-02', '-0044-03', '12000-01', '2000-02Z']),
+                    ('xs:gMonthDay', ['--02-29', '--12-31Z']), ('xs:gDay', ['---31', '---01Z']), ('xs:gMonth', ['--12', '--01Z'])):
+        for v in vals:
+            add(t, 'datetime:bce' if v.startswith('-0') else 'datetime:year>9999' if v.startswith('12000') else
+                'datetime:tz' if v.endswith('Z') else 'datetime:no-tz', v)
+    # strings
+    for expr, cls in (("''", 'string:empty'), ("'abc'", 'string:plain'), ("'a b'", 'string:plain'), ("' '", 'string:blank'),
+                      ("'\U0001D11Ex'", 'string:astral'), ("'\U0001F600'", 'string:astral'), ("'é'", 'string:combining'),
+                      ("'%s'" % ('ab ' * 70), 'string:long'), ("'1'", 'string:digits'), ("'-5'", 'string:digits')):
+        out.append(('xs:string', cls, expr))
+    for t, vals in (('xs:normalizedString', ['', 'a  b']), ('xs:token', ['', 'a b']), ('xs:language', ['en']), ('xs:NMTOKEN', ['1x']),
+                    ('xs:Name', ['a:b']), ('xs:NCName', ['n']), ('xs:ID', ['id1']), ('xs:IDREF', ['id1']), ('xs:ENTITY', ['e'])):
+        for v in vals:
+            add(t, 'string:empty' if v == '' else 'string:plain', v)
+    for lex, cls in (('', 'string:empty'), ('abc', 'string:plain'), ('-5', 'string:digits'), ('1.5', 'string:digits'), ('true', 'string:plain'),
+                     ('2000-01-01', 'string:plain'), ('\U0001D11E', 'string:astral')):
+        add('xs:untypedAtomic', cls, lex)
+    for lex in ('', 'http://x/y', 'a b', 'urn:x'):
+        add('xs:anyURI', 'string:empty' if lex == '' else 'string:plain', lex)
+    for t, vals in (('xs:boolean', ['true', 'false']), ('xs:hexBinary', ['', '0AFF']), ('xs:base64Binary', ['', 'AAAA']), ('xs:QName', ['n', 'p:n'])):
+        for v in vals:
+            add(t, 'other', v)
+    return out
+
+
+SIG_VALUES = _build_sig_values()
+_SIG_DEFAULT_ATOM = {   # benign companion argument for the other parameters
+    'xs:string': "'abc'", 'xs:integer': '1', 'xs:double': '1e0', 'xs:decimal': '1.5', 'xs:numeric': '1', 'xs:boolean': 'true()',
+    'xs:anyAtomicType': "'abc'", 'xs:duration': "xs:duration('P1D')", 'xs:dayTimeDuration': "xs:dayTimeDuration('PT1H')",
+    'xs:yearMonthDuration': "xs:yearMonthDuration('P1Y')", 'xs:dateTime': "xs:dateTime('2000-01-01T12:00:00Z')",
+    'xs:date': "xs:date('2000-02-29')", 'xs:time': "xs:time('12:00:00')", 'xs:QName': "xs:QName('fn:abs')", 'xs:anyURI': "xs:anyURI('urn:x')",
+    'xs:float': "xs:float('1.5')", 'xs:NCName': "xs:NCName('n')", 'xs:language': "xs:language('en')",
+}
+
+
+def default_arg(ast, depth=2):
+    """deterministic benign argument expression for a declared parameter type, or None"""
+    if ast[0] == 'empty':
+        return '()'
+    it, occ = ast
+    it = rs.strip_paren(it)
+    k = it[0]
+    if k == 'atomic':
+        return _SIG_DEFAULT_ATOM.get(it[1])
+    if k == 'item':
+        return "'abc'"
+    if k in ('node', 'element'):
+        if k == 'element' and (it[2] is not None or it[1] not in (None, 'a')):
+            return '()' if occ in ('?', '*') else None
+        return '/a'
+    if k == 'doc':
+        return '(/)'
+    if k == 'attribute':
+        return '/a/@x' if it[1] is None and it[2] is None else ('()' if occ in ('?', '*') else None)
+    if k == 'map':
+        return 'map { 1 : "a" }' if it[1] is None else None
+    if k == 'array':
+        return '[1, 2]' if it[1] is None else None
+    if k == 'function':
+        if it[1] is None:
+            return 'abs#1'
+        if depth <= 0:
+            return None
+        body = default_arg(it[2], depth - 1)
+        if body is None:
+            return None
+        if it[2][0] != 'empty' and rs.strip_paren(it[2][0])[0] == 'item' and it[1]:
+            body = '$a0'
+        return 'function(%s) as %s { %s }' % (', '.join('$a%d as %s' % (i, rs.render(a)) for i, a in enumerate(it[1])),
+                                              rs.render(it[2]), body)
+    return None
+
+
+def sweep_cases(sig, stride=1):
+    """deterministic cases: every parameter of an atomic (or item()) type receives every value of SIG_VALUES whose type
+    derives from it - alone and, for * / + parameters, inside a long sequence - the other parameters a benign default;
+    plus the empty sequence for ? / * parameters.  stride > 1 thins the values of xs:anyAtomicType / item() parameters."""
+    name, arity, params, ret, variadic = sig
+    asts = [rs.parse(p) for p in params]
+    n = arity
+    defaults = []
+    for i in range(n):
+        a = asts[min(i, len(asts) - 1)]
+        if COLLATION_ARG.get((_local(name), arity)) == i:
+            defaults.append("'%s'" % CODEPOINT)
+            continue
+        hint = ARG_HINTS.get((_local(name), i))
+        defaults.append(hint[0] if hint else default_arg(a))
+    if any(d is None for d in defaults):
+        return
+    for i in range(n):
+        a = asts[min(i, len(asts) - 1)]
+        if a[0] == 'empty' or COLLATION_ARG.get((_local(name), arity)) == i:
+            continue
+        it, occ = a
+        it = rs.strip_paren(it)
+        if it[0] == 'atomic':
+            ptype = it[1]
+        elif it[0] == 'item':
+            ptype = 'xs:anyAtomicType'
+        else:
+            continue
+        wide = ptype in ('xs:anyAtomicType',)
+        cands = [v for v in SIG_VALUES if rs.derives_from(v[0], ptype)]
+        if wide and stride > 1:
+            seen, thin = set(), []
+            for j, v in enumerate(cands):
+                if (v[0], v[1]) not in seen or j % stride == 0:
+                    thin.append(v)
+                seen.add((v[0], v[1]))
+            cands = thin
+
+        def mk(expr, cls, shape):
+            args = [['X', d] for d in defaults]
+            args[i] = ['X', expr]
+            return {'fn': name, 'arity': arity, 'args': args, 'doc': 'et', 'ctx': 1, 'cls': cls, 'pos': i, 'shape': shape}
+        if occ in ('?', '*'):
+            yield mk('()', 'seq:empty', 'empty')
+        for t, cls, expr in cands:
+            yield mk(expr, cls, 'single')
+        if occ in ('*', '+'):
+            by_type = {}
+            for t, cls, expr in cands:
+                by_type.setdefault(t, []).append((cls, expr))
+            for t, lst in by_type.items():
+                exprs = [e for _, e in lst]
+                long_ = (exprs * 12)[:12]
+                yield mk('(%s)' % ', '.join(long_), 'seq:long', 'long')
+                for cls in sorted({c for c, _ in lst}):
+                    sel = [e for c, e in lst if c == cls][:3]
+                    yield mk('(%s)' % ', '.join(sel + sel), cls, 'seq')
+
+
 def signatures():
     """[(prefixed name, arity, [param type strings], return type string, variadic)] of the 3.1 parser"""
     from elementpath.xpath31 import XPath31Parser
@@ -1708,15 +1927,33 @@ def declared_return_type(name, arity) -> str:
     return _state['sigs'][name, arity]
 
 
+def _type_mismatch(res, declared):
+    """bucket suffix when the described result does not match the declared return type, else None"""
+    if "('pynone',)" in repr(res):
+        return 'returns-python-None-as-item'
+    if not rs.matches(res, rs.parse(declared), SIG_NS):
+        rc = value_class(res)
+        if len(res) == 1 and res[0][0] == 'atom':
+            rc = res[0][1]
+        elif res and all(x[0] == 'atom' for x in res):
+            bad = [x[1] for x in res if not rs.matches([x], [rs.parse(declared)[0], ''], SIG_NS)] \
+                if rs.parse(declared)[0] != 'empty' else []
+            rc = 'seq-with-' + (bad[0] if bad else 'wrong-cardinality')
+        return f'returns-{rc}'
+    return None
+
+
 def judge_signature(case, rec: Recorder | None = None) -> list[Disc]:
     discs: list[Disc] = []
     parser, root, nodes = env(case['doc'], '1.0')
     name, arity = case['fn'], case['arity']
-    expr = '%s(%s)' % (name, ', '.join(_render_arg(a) for a in case['args']))
+    argx = [_render_arg(a) for a in case['args']]
+    expr = '%s(%s)' % (name, ', '.join(argx))
     item = nodes[case['ctx']] if case.get('ctx') is not None else None
     got = ep_eval(parser, expr, root, item)
     tag = f'{name}#{arity}'
     classes = ['sig:call']
+    declared = declared_return_type(name, arity)
     if got[0] == 'esc':
         classes.append('sig:escape')      # not a successful call; escaping exceptions belong to C03
     elif got[0] == 'err':
@@ -1724,18 +1961,43 @@ def judge_signature(case, rec: Recorder | None = None) -> list[Disc]:
     else:
         classes.append('sig:success')
         res = describe_result_seq(got[1])
-        declared = declared_return_type(name, arity)
-        ret = rs.parse(declared)
-        if "('pynone',)" in repr(res):
-            discs.append(Disc(f'C18/signature/{tag}/returns-python-None-as-item', declared, repr(got[1])[:200], expr))
-        elif not rs.matches(res, ret, SIG_NS):
-            rc = value_class(res)
-            if len(res) == 1 and res[0][0] == 'atom':
-                rc = res[0][1]
-            discs.append(Disc(f'C18/signature/{tag}/returns-{rc}', declared, repr(got[1])[:200], expr))
+        k = _type_mismatch(res, declared)
+        if k:
+            discs.append(Disc(f'C18/signature/{tag}/{k}', declared, repr(got[1])[:200], expr))
+        # the same call through the function item and through the arrow operator: there elementpath itself checks
+        # the result against the registered signature; a direct success must not turn into an error
+        routes = [('item-call', '%s#%d(%s)' % (name, len(argx), ', '.join(argx)))]
+        if argx:
+            routes.append(('arrow-call', '(%s) => %s(%s)' % (argx[0], name, ', '.join(argx[1:]))))
+        for rname, rexpr in routes:
+            g2 = ep_eval(parser, rexpr, root, item)
+            classes.append(f'sig:{rname}')
+            if g2[0] == 'ok':
+                res2 = describe_result_seq(g2[1])
+                k2 = _type_mismatch(res2, declared)
+                if k2 and k2 != k:
+                    discs.append(Disc(f'C18/signature/{tag}/{rname}-{k2}', declared, repr(g2[1])[:200], rexpr))
+                elif not k2 and not k and [x[:2] for x in res2] != [x[:2] for x in res]:
+                    discs.append(Disc(f'C18/signature/{tag}/{rname}-differs-from-direct-call', repr(got[1])[:120],
+                                      repr(g2[1])[:120], rexpr))
+            elif g2[0] == 'err':
+                discs.append(Disc(f'C18/signature/{tag}/{rname}-error:{g2[1]}', repr(got[1])[:120], repr(g2[2])[:200], rexpr))
+            else:
+                discs.append(Disc(f'C18/signature/{tag}/{rname}-escape:{type(g2[1]).__name__}', repr(got[1])[:120],
+                                  repr(g2[1])[:200], rexpr))
     if rec is not None:
+        cls = case.get('cls')
+        if cls:
+            classes.append(f'sweep:{cls}:call')
+            if got[0] == 'ok':
+                classes.append(f'sweep:{cls}:success')
+            cells = rec.extra.setdefault('_sweep', {})
+            key = f"{tag}|{case['pos']}|{cls}"
+            c = cells.setdefault(key, [0, 0])
+            c[0] += 1
+            c[1] += got[0] == 'ok'
         rec.case([name, arity, case['args'], case['ctx']], nontrivial=got[0] == 'ok', classes=classes,
-                 sample={'check': 'signature', 'call': expr, 'declared': declared_return_type(name, arity)})
+                 sample={'check': 'signature', 'call': expr, 'declared': declared})
         if got[0] == 'ok':
             ok = rec.extra.setdefault('_sig_ok', {})
             ok[tag] = ok.get(tag, 0) + 1
@@ -1776,7 +2038,8 @@ def jobs(tier, seed):
         out.append({'check': 'subtype-gen', 'shard': i, 'n': perg, 'seed': derive_seed(seed, 'C18', 'subtype-gen', i)})
     ks, pers = (3, 40) if q else (2, 400)
     for i in range(ks):
-        out.append({'check': 'signature', 'shard': i, 'of': ks, 'n': pers, 'seed': derive_seed(seed, 'C18', 'signature', i)})
+        out.append({'check': 'signature', 'shard': i, 'of': ks, 'n': pers, 'stride': 4 if q else 1,
+                    'seed': derive_seed(seed, 'C18', 'signature', i)})
     return out
 
 
@@ -1818,11 +2081,20 @@ def run_job(job, rec: Recorder):
                     return
                 rec.discs_of(chk, case, judge_signature(case, rec))
             hyp_collect(strat, body, job['n'], derive_seed(job['seed'], tag), rec)
+            for case in sweep_cases(sig, job.get('stride', 1)):
+                rec.discs_of(chk, case, judge_signature(case, rec))
             if rec.evaluations == before:
                 uninhabitable += 1
                 rec.notes.append(f'signature {tag}: parameter types not inhabitable by the generator')
         signal.alarm(0)
         ok = rec.extra.pop('_sig_ok', {})
+        cells = rec.extra.pop('_sweep', {})
+        rec.extra['sweep_cells'] = len(cells)                       # (signature, parameter, argument class)
+        rec.extra['sweep_cells_with_successful_call'] = sum(1 for c in cells.values() if c[1])
+        rec.extra['sweep_cells_with_3_successful_calls'] = sum(1 for c in cells.values() if c[1] >= 3)
+        dead = sorted(k for k, c in cells.items() if not c[1])
+        if dead:
+            rec.notes.append('sweep cells without a successful call (every value of the class is rejected): ' + ' '.join(dead)[:3000])
         rec.extra['signatures_total'] = total
         rec.extra['signatures_excluded_external'] = excluded
         rec.extra['signatures_uninhabitable'] = uninhabitable
@@ -1847,6 +2119,10 @@ def shrink_job(job, bucket, budget):
         for sig in _sig_jobs(job):
             tag = f'{sig[0]}#{sig[1]}'
             if ('/' + tag + '/') in bucket + '/' and not sig_excluded(sig[0]):
+                for case in sweep_cases(sig, job.get('stride', 1)):
+                    for d in judge_signature(case):
+                        if d.bucket == bucket:
+                            return case, d
                 return hyp_shrink(signature_case(sig), _judge_sig_opt, bucket, job['n'],
                                   derive_seed(job['seed'], tag), budget)
         return None
